@@ -63,6 +63,15 @@ Definition gd_enclosure (p : positive) (ref comp : list (list Q)) : Q * Q :=
   let n := inject_Z (Z.of_nat (length comp)) in
   (qsum (map (sqrt_lo p) ms) / n, qsum (map (sqrt_hi p) ms) / n).
 
+(* the same enclosure with the partial sums kept in lowest terms (Qred): equal as rationals to gd_enclosure
+   (Proofs/IndicatorsProofs.v gd_enclosure_red_eq), evaluated by the correspondence for computed sets of hundreds
+   to thousands of points, where the unreduced denominators of qsum grow with every term *)
+Definition qsum_red (l : list Q) : Q := fold_right (fun x acc => Qred (x + acc)) 0 l.
+Definition gd_enclosure_red (p : positive) (ref comp : list (list Q)) : Q * Q :=
+  let ms := minsq ref comp in
+  let n := inject_Z (Z.of_nat (length comp)) in
+  (qsum_red (map (sqrt_lo p) ms) / n, qsum_red (map (sqrt_hi p) ms) / n).
+
 (* ------------------------------------------------------------------ *)
 (* generational distance, in R *)
 Local Open Scope R_scope.
